@@ -265,6 +265,10 @@ def correspond(ctx, scale):
             x = torch.randn(*shapes(lay, dim, rng)) * rng.choice([0.5, 1.5])
             if mode == 'eval':
                 x = torch.relu(x)          # exact zeros (ReLU-activated / zero-padded features)
+                if name.startswith(('lfq', 'fsq', 'latent', 'zoo')) or 'lfq' in name or 'fsq' in name:
+                    x = x * -1.0 * -1.0 if ev % 2 == 0 else -torch.relu(-x * -1.0) * -1.0 * -1.0      # half of the runs: the zeros are NEGATIVE zeros (x * mask, -relu(x))
+                    if ev % 2 == 1:
+                        x = torch.where(x == 0, torch.full_like(x, -0.0), x)
                 if name.startswith('simvq'):
                     if lay == 'seq':
                         x[0, 0] = 0.0      # one all-zero input vector, deterministically
